@@ -544,4 +544,16 @@ example :
     (frun C08.cfg d [(1, 0), (1, 0), (1, 0)]).data.freq.map (fun e => (e.word, e.count)) = [([34442], 1)] := by
   decide +kernel
 
+
+open Chokan.Conc Chokan.Fine Chokan.Gen.Server in
+/-- **No acknowledged registration is lost or applied twice by the queue** (interleaving model with data): for every
+start state, every set of threads and every schedule, the entries queued at the start followed by every entry sent — by
+registrations (`RegisterWord` sends before it answers, `C15_conc_registration_queued`) and by compound confirmations — in
+the order they were sent, are exactly the entries the updater has taken, in the order it took them, followed by the
+entries still queued.  (Each taken entry is then applied by one iteration of the updater, which alone is `applyEntry`:
+`C14_fine_others_are_atomic`.) -/
+theorem C15_fine_queue_conserved (cfg : Chokan.Server.Cfg) (d : FSt) (sched : List (Nat × Nat)) :
+    d.data.pending ++ sentLog cfg d sched = takenLog cfg d sched ++ (frun cfg d sched).data.pending :=
+  queue_conserved cfg sched d
+
 end Chokan.Props.C15
